@@ -194,6 +194,8 @@ def make_world(case):
             (es.create_keep if case["role"] == "create" else es.recv_keep)(number=1)[0].measure()
         world.reset()
     kwargs: Dict[str, Any] = {"epr_sockets": [es]}
+    if case.get("max_qubits"):
+        kwargs["max_qubits"] = case["max_qubits"]
     flavour = None
     if case.get("hw") == "nv":
         from netqasm.lang.instr.flavour import NVFlavour
@@ -661,6 +663,13 @@ def request_cases(T: str, role: str, api: str, tier: str) -> List[Dict[str, Any]
                 for b in (full if wide else few[:2]):
                     for s in meas_specs(T, "cube2"):
                         cases.append(mk(b, s))
+            # measure-directly and state-preparation requests keep no qubit on the creating side: more pairs than the
+            # application has qubits is a valid request
+            for b in full:
+                if b["number"] > 2 and not deprecated:
+                    c = mk(b, {})
+                    c["max_qubits"] = 2
+                    cases.append(c)
             if api == "create_rsp":
                 for b in (full if thorough else few):
                     for s in ({}, {"basis_local": "X"}, {"rotations_local": [1, 2, 3]}, {"random_basis_local": "CHSH"}):
@@ -820,8 +829,8 @@ def run_result_case(case, part) -> None:
             except Exception as exc:  # noqa
                 _guard(exc)
                 rn = f"<{type(exc).__name__}: {exc}>"
-            if rn != case["remote"]:
-                bad("Qubit.remote_entangled_node", p, rn, case["remote"], "remote_node_id")
+            if rn != simctl.node_name_of(case["remote"]):
+                bad("Qubit.remote_entangled_node", p, rn, simctl.node_name_of(case["remote"]), "remote_node_id")
             count(part, "handle/Qubit.remote_entangled_node")
     # ---- EprKeepResult ---------------------------------------------------------------
     if "keep" in h:
